@@ -3,5 +3,5 @@ Require Extraction.
 Require Import ExtrOcamlBasic.
 From Adapt Require Import Num.Qaux Avoid.SegPolyModel Avoid.RefRouterModel.
 Extraction "c03_model.ml"
-  route_ok offenders degenerate_chord convex_ccw through_interior inside_strict inside_closed seg_clear
+  route_ok offenders degenerate_chord convex_ccw through_interior inside_strict inside_closed seg_clear segs_clear
   route_plain route_taut polyline_len polyline_turns spec_validateBendPoint spec_inValidRegion lenZ.
